@@ -672,6 +672,69 @@ fn macro_forms(res: &mut PartResult) {
         dforms!(describe_gauge, "describe_gauge");
         dforms!(describe_histogram, "describe_histogram");
     });
+    // ---- one call site executed several times with different arguments, in different scopes and on another thread:
+    // whatever a call site caches (static keys, metadata) must not freeze what a later execution spells
+    fn site_name(n: &str) {
+        let _ = metrics::counter!(n.to_string());
+    }
+    fn site_name_lit_labels(n: &str) {
+        let _ = metrics::gauge!(n.to_string(), "k" => "v", "k2" => "v2");
+    }
+    fn site_lit_name_value(v: &str) {
+        let _ = metrics::histogram!("lit", "k" => v.to_string());
+    }
+    fn site_name_value(n: &str, v: &str) {
+        let _ = metrics::counter!(n.to_string(), "k" => v.to_string(), "z" => "c");
+    }
+    fn site_name_collection(n: &str, v: &str) {
+        let _ = metrics::gauge!(n.to_string(), vec![Label::new("a", v.to_string())]);
+    }
+    fn site_target_level(n: &str) {
+        let _ = metrics::histogram!(target: "tgt", level: Level::DEBUG, n.to_string(), "k" => "v");
+    }
+    fn site_describe(n: &str, d: &str) {
+        metrics::describe_gauge!(n.to_string(), Unit::Bytes, d.to_string());
+    }
+    fn site_all_literal() {
+        let _ = metrics::counter!("lit", "k" => "v");
+    }
+    let run_sites = |tag: &str| {
+        site_name(&format!("n{}", tag));
+        site_name_lit_labels(&format!("n{}", tag));
+        site_lit_name_value(&format!("v{}", tag));
+        site_name_value(&format!("n{}", tag), &format!("v{}", tag));
+        site_name_collection(&format!("n{}", tag), &format!("v{}", tag));
+        site_target_level(&format!("n{}", tag));
+        site_describe(&format!("n{}", tag), &format!("d{}", tag));
+        site_all_literal();
+    };
+    let want_sites = |id: usize, tag: &str| -> Vec<String> {
+        vec![
+            format!("{id}|register_counter|n{tag}{{}}|{mp}/Level(2)/{mp}"),
+            format!("{id}|register_gauge|n{tag}{{k=v,k2=v2}}|{mp}/Level(2)/{mp}"),
+            format!("{id}|register_histogram|lit{{k=v{tag}}}|{mp}/Level(2)/{mp}"),
+            format!("{id}|register_counter|n{tag}{{k=v{tag},z=c}}|{mp}/Level(2)/{mp}"),
+            format!("{id}|register_gauge|n{tag}{{a=v{tag}}}|{mp}/Level(2)/{mp}"),
+            format!("{id}|register_histogram|n{tag}{{k=v}}|tgt/Level(1)/{mp}"),
+            format!("{id}|describe_gauge|n{tag}|Some(\"bytes\")|d{tag}"),
+            format!("{id}|register_counter|lit{{k=v}}|{mp}/Level(2)/{mp}"),
+        ]
+    };
+    metrics::with_local_recorder(&d, || {
+        for tag in ["1", "2", "1"] {
+            run_sites(tag);
+            check(res, &format!("eight call sites, execution with arguments tagged {}", tag), want_sites(0, tag));
+        }
+    });
+    let d2 = Dbl { id: 7, log: log.clone() };
+    std::thread::scope(|sc| {
+        sc.spawn(|| {
+            metrics::with_local_recorder(&d2, || {
+                run_sites("3");
+            })
+        });
+    });
+    check(res, "the same eight call sites executed on another thread under another recorder", want_sites(7, "3"));
     res.states = states.len();
     res.distinct_outcomes = states.len();
     res.sample(json!({"form": "counter!(target: \"tgt\", level: Level::ERROR, name, \"k\" => value)", "expected": "register_counter|dyn.name{k=dv}|tgt/Level(4)/<module path>"}));
